@@ -109,14 +109,48 @@ def mutation_function(name):
 # ----------------------------------------------------------------------------------------
 # graphs
 # ----------------------------------------------------------------------------------------
-def build(par, labels):
-    """par[i] = positions of the parents of node i (order kept); nodes listed in position order"""
-    nodes = [OptNode(labels[i]) for i in range(len(par))]
-    for i, ps in enumerate(par):
-        nodes[i].nodes_from = [nodes[p] for p in ps]
+def build(par, labels, share='none'):
+    """par[i] = positions of the parents of node i (order kept); nodes listed in position order.
+    share = 'ctor' / 'setter': a node whose parent set equals that of a node built before it gets that
+    node's LIVE nodes_from handed to its constructor / to its nodes_from setter (OptNode copies it into
+    a new UniqueList; a change that keeps the container would make the two nodes share one list)."""
+    n = len(par)
+    nodes = [None] * n
+    order, built = [], set()
+    while len(order) < n:
+        for i in range(n):
+            if i not in built and all(p in built for p in par[i]):
+                order.append(i)
+                built.add(i)
+    donors = {}
+    for i in order:
+        key = tuple(sorted(par[i]))
+        if share != 'none' and par[i] and key in donors:
+            donor = nodes[donors[key]]
+            if share == 'ctor':
+                nodes[i] = OptNode(labels[i], nodes_from=donor.nodes_from)
+            else:
+                nodes[i] = OptNode(labels[i])
+                nodes[i].nodes_from = donor.nodes_from
+        else:
+            nodes[i] = OptNode(labels[i], nodes_from=[nodes[p] for p in par[i]])
+            if par[i]:
+                donors.setdefault(key, i)
     g = OptGraph()
     g.nodes = list(nodes)
     return g
+
+
+def listings(par):
+    """the same graph listed sink-first (as given), sink-last (reversed) and rotated (sink in the middle)"""
+    n = len(par)
+    out = [par]
+    for perm in (list(reversed(range(n))), [(i + n // 2) % n for i in range(n)]):
+        inv = {o: i for i, o in enumerate(perm)}      # perm[k] = old position listed at k
+        new = [[inv[p] for p in par[perm[k]]] for k in range(n)]
+        if new not in out:
+            out.append(new)
+    return out
 
 
 def small_dags(n):
@@ -324,7 +358,7 @@ def run_mutation_case(spec):
     fn = spec['fn']
     random.seed(spec['seed'])
     frng = random.Random(spec['seed'] * 7919 + 13)
-    g = build(spec['par'], spec['labels'])
+    g = build(spec['par'], spec['labels'], spec.get('share', 'none'))
     reg = Reg()
     gb = [reg.r(n) for n in g.nodes]
     hb = reg.heap()
@@ -485,7 +519,7 @@ def infer_mutation(spec, reg, fac, adv, gb, hb, ga, ha, parents_b, uid_ref, res)
 def make_second(spec, g1):
     rel = spec['rel']
     if rel == 'ind':
-        return build(spec['par2'], spec['labels2'])
+        return build(spec['par2'], spec['labels2'], spec.get('share', 'none'))
     g2 = deepcopy(g1)
     if rel == 'mutcopy':
         random.seed(spec['seed'] + 1)
@@ -501,7 +535,7 @@ def make_second(spec, g1):
 
 def run_crossover_case(spec):
     fn = spec['fn']
-    g1 = build(spec['par'], spec['labels'])
+    g1 = build(spec['par'], spec['labels'], spec.get('share', 'none'))
     g2 = make_second(spec, g1)
     if not py_wellformed(g2):
         # the built-in mutation that prepared the relative returned a broken graph: that is a C17
@@ -633,7 +667,7 @@ def mutation_spec(rng, fn, par, labels=None):
             'labels': labels or random_labels(rng, n, rng.randint(1, 3), data_source=(advice == 'with_direct_children')),
             'md': rng.randint(1, 6), 'min_ar': rng.randint(1, 2), 'max_ar': rng.randint(2, 4), 'ntypes': ntypes,
             'none_p': none_p, 'advice': advice, 'attempts': rng.choice([1, 3, 100]), 'rgf': rgf,
-            'strength': rng.choice(['weak', 'mean', 'strong']),
+            'strength': rng.choice(['weak', 'mean', 'strong']), 'share': rng.choice(['none', 'ctor', 'setter']),
             'seed': rng.randrange(1 << 30)}
 
 
@@ -649,6 +683,17 @@ SKIP_SHAPES = [
 ]
 
 
+# siblings with one parent set: the donor's nodes_from is handed to the sibling (see build)
+SHARED_SHAPES = [
+    [[1, 2], [4], [3], [4], []],            # r <- b, e ; b <- a ; e <- c ; c <- a   (b and c share [a])
+    [[1, 2], [3], [3], []],                 # diamond
+    [[1, 2], [3, 4], [3, 4], [], []],       # two shared parents
+    [[1, 2, 3], [4], [4], [4], []],         # three siblings
+    [[2], [2], []],                         # two sinks with one parent
+    [[1], [2, 3], [4], [4], []],            # shared deeper down
+]
+
+
 def random_graph_spec(rng, nmax=10):
     n = rng.randint(1, nmax)
     if rng.random() < 0.5:
@@ -660,6 +705,7 @@ def crossover_spec(rng, fn, par, par2=None):
     rel = rng.choice(['ind', 'copy', 'mutcopy'])
     k = rng.randint(1, 3)
     spec = {'fn': fn, 'par': par, 'labels': random_labels(rng, len(par), k), 'rel': rel, 'md': rng.randint(1, 6),
+            'share': rng.choice(['none', 'ctor', 'setter']),
             'seed': rng.randrange(1 << 30), 'premut': rng.choice(['single_change', 'single_edge', 'single_add',
                                                                    'single_drop', 'tree_growth'])}
     if rel == 'ind':
@@ -716,8 +762,9 @@ def evaluate(ctx, group, kind, specs):
 def run(ctx):
     rng = ctx.rng
     ctx.rule = ('one case = one call of a built-in mutation function (10 repository entries) or crossover function (6) '
-                'of /repo on freshly built DAGs: all DAG shapes with <= 4 nodes (75 shapes, listed order and a random '
-                'listing order) and random DAGs with <= 10 nodes (valid single-sink with shared ancestors, and merely '
+                'of /repo on freshly built DAGs: all DAG shapes with <= 4 nodes (75 shapes, each listed sink-first, sink-last and '
+                'sink-in-the-middle; nodes with equal parent sets optionally built from the live nodes_from of a sibling '
+                'through the constructor or the setter) and random DAGs with <= 10 nodes (valid single-sink with shared ancestors, and merely '
                 'well-formed: several sinks, isolated nodes) x max_depth 1..6 x arity bounds x node factories with '
                 '1..3 node types (35% of them answering None at random) x own / repository random graph factory x the five '
                 'RemoveType advices x attempts 1/3/100 x mutation strength weak/mean/strong x seeds; simple_mutation additionally on '
@@ -737,13 +784,29 @@ def run(ctx):
     shapes = [p for n in range(1, 5) for p in small_dags(n)]
     # ---- mutations: every small shape x every function, then random graphs
     m_small = []
-    reps = ctx.budget(1, 8)
+    reps = ctx.budget(0, 5)       # random listings on top of sink-first / sink-last / sink-in-the-middle
     for fn in MUTATIONS:
         for par in shapes:
-            for k in range(reps):
-                m_small.append(mutation_spec(rng, fn, par if k == 0 else permute(rng, par)))
+            for lst in listings(par) + [permute(rng, par) for _ in range(reps)]:
+                m_small.append(mutation_spec(rng, fn, lst))
     evaluate(ctx, 'mutations-small', 'mut', m_small)
     ctx.set_exhaustive('mutations-small', True)
+    # ---- graphs in which a node was built from another node's live nodes_from (constructor / setter)
+    m_sh, c_sh = [], []
+    for par in SHARED_SHAPES:
+        for lst in listings(par):
+            for share in ('ctor', 'setter'):
+                for fn in MUTATIONS:
+                    for _ in range(ctx.budget(1, 3)):
+                        spec = mutation_spec(rng, fn, lst)
+                        spec['share'] = share
+                        m_sh.append(spec)
+                for fn in CROSSOVERS:
+                    spec = crossover_spec(rng, fn, lst, par2=rng.choice(SHARED_SHAPES))
+                    spec['share'] = share
+                    c_sh.append(spec)
+    evaluate(ctx, 'shared-parents', 'mut', m_sh)
+    evaluate(ctx, 'shared-parents-cx', 'cx', c_sh)
     # ---- simple_mutation on skip-edge DAGs x every strength x 1..3 node types
     m_skip = []
     for par in SKIP_SHAPES:
@@ -756,7 +819,7 @@ def run(ctx):
                     m_skip.append(spec)
     evaluate(ctx, 'simple-skip-edges', 'mut', m_skip)
     m_rand = []
-    for _ in range(ctx.budget(260, 5000)):
+    for _ in range(ctx.budget(180, 4500)):
         par = random_graph_spec(rng)
         for fn in MUTATIONS:
             m_rand.append(mutation_spec(rng, fn, par))
@@ -767,11 +830,11 @@ def run(ctx):
     c_small = []
     for fn in CROSSOVERS:
         for par in shapes:
-            for k in range(reps):
-                c_small.append(crossover_spec(rng, fn, permute(rng, par) if k else par, par2=rng.choice(shapes)))
+            for lst in listings(par) + [permute(rng, par) for _ in range(reps)]:
+                c_small.append(crossover_spec(rng, fn, lst, par2=rng.choice(listings(rng.choice(shapes)))))
     evaluate(ctx, 'crossovers-small', 'cx', c_small)
     c_rand = []
-    for _ in range(ctx.budget(200, 3500)):
+    for _ in range(ctx.budget(130, 3000)):
         par = random_graph_spec(rng, 8)
         for fn in CROSSOVERS:
             c_rand.append(crossover_spec(rng, fn, par))
